@@ -143,6 +143,59 @@ def main():
         print("extract: wrote %s (%d ints, %d floats, %d never-cache)" % (a.out, len(ints), len(flts), len(ign)))
     else:
         print("extract: unchanged (%d ints, %d floats, %d never-cache)" % (len(ints), len(flts), len(ign)))
+    tool_facts(repo, os.path.join(os.path.dirname(a.out), 'Tool.lean'))
+
+def tool_facts(repo, out):
+    """facts about debug_registers/main.c that the C20 theorems rest on: every index the decoders
+    use on the register array is a literal, the largest of them, and the number of values main()
+    insists on before it calls a decoder"""
+    path = os.path.join(repo, 'debug_registers', 'main.c')
+    src = strip_comments(open(path).read())
+    idx = re.findall(r'\b(?:regs|output|registers)\s*\[([^\]]*)\]', src)
+    LIT = r'\s*(0[xX][0-9a-fA-F]+|\d+)\s*'
+    bounds = []
+    literal = True
+    for e in idx:
+        if re.fullmatch(LIT, e):
+            bounds.append(int(e.strip(), 0))
+            continue
+        # the one other shape that is understood: `BASE + i` inside `for (int i = 0; i < V; i++)`
+        # where V was assigned `(… & MASK) + 1`: the index is at most BASE + MASK
+        m = re.fullmatch(r'\s*(0[xX][0-9a-fA-F]+|\d+)\s*\+\s*(\w+)\s*', e)
+        ok = False
+        if m:
+            base, var = int(m.group(1), 0), m.group(2)
+            loop = re.search(r'for\s*\(\s*int\s+%s\s*=\s*0\s*;\s*%s\s*<\s*(\w+)\s*;\s*%s\+\+\s*\)[^;]*\[\s*%s\s*\+\s*%s\s*\]' % (var, var, var, re.escape(m.group(1)), var), src)
+            if loop:
+                lim = loop.group(1)
+                asg = re.search(r'\b%s\s*=\s*\([^;&]*&\s*(0[bB][01]+|0[xX][0-9a-fA-F]+|\d+)\s*\)\s*\+\s*1\s*;' % lim, src)
+                if asg:
+                    t = asg.group(1)
+                    mask = int(t[2:], 2) if t.lower().startswith('0b') else int(t, 0)
+                    bounds.append(base + mask)
+                    ok = True
+        if not ok:
+            literal = False
+    mx = max(bounds or [0])
+    m = re.search(r'if\s*\(\s*output_length\s*<\s*(0[xX][0-9a-fA-F]+|\d+)\s*\)\s*\{[^}]*return\s+EXIT_FAILURE', src, flags=re.S)
+    guard = int(m.group(1), 0) if m else 0
+    # the guard must stand between the parser and the first decoder call
+    main_body = src[src.index('int main('):]
+    guard_first = bool(m) and main_body.find('output_length <') < main_body.find('dump_lora_registers(')
+    text = '\n'.join([
+        '/- GENERATED by gen/extract.py from debug_registers/main.c. Do not edit. -/',
+        'namespace Sx.Gen',
+        '/-- every subscript of the register array in the tool is an integer literal (or the bounded sync-word loop index) -/',
+        '@[reducible] def toolIndicesLiteral : Bool := %s' % ('true' if literal else 'false'),
+        '/-- an upper bound of all of them -/',
+        '@[reducible] def toolMaxIndex : Nat := 0x%x' % mx,
+        '/-- main() returns EXIT_FAILURE before any decoder when fewer values than this were parsed (0 = no such guard) -/',
+        '@[reducible] def toolMinValues : Nat := 0x%x' % (guard if guard_first else 0),
+        'end Sx.Gen', ''])
+    old = open(out).read() if os.path.exists(out) else None
+    if old != text:
+        open(out, 'w').write(text)
+        print("extract: wrote %s" % out)
 
 if __name__ == '__main__':
     main()
